@@ -55,6 +55,11 @@ func loadAll(repo string) (*Program, *Contracts, error) {
 			return nil, nil, err
 		}
 	}
+	for n, pf := range c.Pures {
+		if pf.Body == nil {
+			uninterpretedSpecs["sp_"+n] = true
+		}
+	}
 	return p, c, nil
 }
 
